@@ -1,0 +1,61 @@
+//go:build verif
+// +build verif
+
+// Contracts for deductive verification of package server (comment-only; compiled only
+// with the build tag "verif"). Grammar: /verif/DESIGN.md, Appendix B.
+
+package server
+
+// ---------------------------------------------------------------- C21 read-only users
+// allowWrite(ns, user): the user's configured RWFlag is ReadWrite
+//@ pure allowWrite(n *Namespace, user string) bool
+// session invariant (established at login, not verified here): the session's user has properties in its namespace
+//@ pure knownUser(n *Namespace, user string) bool = has(n.userProperties, user) && n.userProperties[user] != nil
+//@ func (*Namespace).IsAllowWrite
+//@   requires n != nil && knownUser(n, user)
+//@   assigns \nothing
+//@   ensures ret0 <==> allowWrite(n, user)
+//@   assume allowWrite(n, user) <==> n.userProperties[user].RWFlag == models.ReadWrite
+//@ func (*SessionExecutor).GetNamespace
+//@   requires se != nil
+//@   assigns \nothing
+//@   ensures ret0 == se.contextNamespace
+
+// statement classification (parser.Preview) as an uninterpreted function of the text; the request context
+// only records it (trusted: SetStmtType writes the context's own fields)
+//@ pure previewOf(sql string) int
+//@ trusted github.com/XiaoMi/Gaea/parser.Preview
+//@   params sql
+//@   pure-call
+//@   ensures ret0 == previewOf(sql)
+//@ trusted (*github.com/XiaoMi/Gaea/util.RequestContext).SetStmtType
+//@   params reqCtx, value
+//@   pure-call
+//@ pure mutating(kind int) bool = kind == parser.StmtInsert || kind == parser.StmtReplace || kind == parser.StmtUpdate || kind == parser.StmtDelete || kind == parser.StmtDDL
+//@ pure stmtAllowed(n *Namespace, user string, kind int) bool = allowWrite(n, user) || !mutating(kind)
+
+//@ property C21: isSQLNotAllowedByUser, (*SessionExecutor).GetNamespace, (*Namespace).IsAllowWrite, (*SessionExecutor).checkSQLAllowed, (*SessionExecutor).doQuery
+
+// a nil result means the statement kind is allowed for the session's user
+//@ func (*SessionExecutor).checkSQLAllowed
+//@   requires se != nil && se.contextNamespace != nil && reqCtx != nil && knownUser(se.contextNamespace, se.user)
+//@   ensures ret0 == nil ==> stmtAllowed(old(se.contextNamespace), old(se.user), previewOf(sql))
+
+// doQuery is the only path from the query handlers to planning and the backends: every call it makes, other than
+// the permission check itself, happens only when the statement kind is allowed for the user (dominance)
+//@ func (*SessionExecutor).doQuery
+//@   requires se != nil && se.contextNamespace != nil && reqCtx != nil && knownUser(se.contextNamespace, se.user)
+//@   assert-all-calls except checkSQLAllowed: stmtAllowed(old(se.contextNamespace), old(se.user), previewOf(sql))
+//@   ensures ret1 == nil ==> stmtAllowed(old(se.contextNamespace), old(se.user), previewOf(sql))
+
+// a statement kind that can modify data or schema (property text: INSERT, REPLACE, UPDATE, DELETE, DDL)
+//@ func isSQLNotAllowedByUser
+//@   requires c != nil && c.contextNamespace != nil && knownUser(c.contextNamespace, c.user)
+//@   assigns \nothing
+//@   ensures case insert:  !allowWrite(c.contextNamespace, c.user) && stmtType == parser.StmtInsert ==> ret0
+//@   ensures case replace: !allowWrite(c.contextNamespace, c.user) && stmtType == parser.StmtReplace ==> ret0
+//@   ensures case update:  !allowWrite(c.contextNamespace, c.user) && stmtType == parser.StmtUpdate ==> ret0
+//@   ensures case delete:  !allowWrite(c.contextNamespace, c.user) && stmtType == parser.StmtDelete ==> ret0
+//@   ensures case ddl:     !allowWrite(c.contextNamespace, c.user) && stmtType == parser.StmtDDL ==> ret0
+//@   ensures case writer:  allowWrite(c.contextNamespace, c.user) ==> !ret0
+//@   ensures case reads:   (stmtType == parser.StmtSelect || stmtType == parser.StmtShow) ==> !ret0
